@@ -125,7 +125,8 @@ def run(rep, tier):
                    ("<= 4 calls with 3 variables, <= 3 calls with 4 variables", "3", "8", "4", "3",
                     ", plus the erased statements of the theorems of the library theory real")))
     rep.assumptions = ["TLC/SANY, the structural codec (harness/codec.py + the None-tolerant variant in the driver), CPython",
-                       "constants are looked up in the loaded theory 'real' (logic_base .. real); context.ctxt.defs is empty",
+                       "constants are looked up in the loaded theory 'real' (logic_base .. real); context.ctxt.defs is exercised only "
+                       "by the seeded random family (free variables turned into constants under definition)",
                        "forbid_internal=True (the default used by the parser); infer_printed_type is not examined",
                        "a call is given 5 s (median < 1 ms); RecursionError/MemoryError/timeout count as a violation only when the "
                        "as-found algorithm model accepts a cyclic binding for the same skeleton (DESIGN section 4 rule 5)"]
@@ -203,7 +204,7 @@ def run(rep, tier):
     traces = [("replay", ev_replay), ("random", ev_rand)] + ([] if quick else [("corpus", ev_corpus)])
     for name, path in traces:
         evs = read_events(path)
-        v = validate_trace(TSPEC, path, wd=wd / ("tv_" + name), nchunks=2 if quick else 4, env=tenv)
+        v = validate_trace(TSPEC, path, wd=wd / ("tv_" + name), nchunks=2 if quick else 12, env=tenv)
         rep.add_trace_result(name, evs, v)
         if name == "replay":
             _selftests(rep, evs, wd, tenv)
